@@ -223,9 +223,9 @@ class PubSubWorld:
             if asyncio.iscoroutine(r):
                 w.loop.run_until_complete(r)
             return ('ok', None)
-        except BaseException as ex:   # noqa  (a scripted Fatal ends the listener)
-            if isinstance(ex, (KeyboardInterrupt,)):
-                raise
+        except BaseException as ex:   # noqa  (a scripted Fatal — or SystemExit / KeyboardInterrupt /
+            # GeneratorExit / CancelledError escaping a broken listener — ends `_thread`: a verdict,
+            # never the end of the check)
             return ('exc', type(ex).__name__)
 
     def cursors(self):
